@@ -15,7 +15,7 @@ func genC17(r *Rng, k int, tier string) *RunSpec {
 	}
 	st := newStd(o)
 	a := &st.W.Servers[0]
-	a.Filter = Pick(r, []string{"all", "all", "none", "first", "odd"})
+	a.Filter = Pick(r, []string{"all", "all", "none", "first", "odd", "dropfirst-inplace"})
 	ownedNonColl := st.Note2
 	a.Docs = append(a.Docs, DocSpec{st.Alice.Followers,
 		mustJSON(J{"@context": asCtx, "type": "Collection", "id": st.Alice.Followers, "items": []interface{}{st.Bob.ID, st.Dave, J{"type": "Person", "id": st.Erin, "inbox": st.Erin + "/inbox"}}})})
@@ -77,11 +77,37 @@ func genC17(r *Rng, k int, tier string) *RunSpec {
 		f[Pick(r, []string{"bto", "bcc"})] = Pick(r, []string{st.Dave, st.Erin}) // legal on an inbound activity; must be forwarded unchanged
 	}
 	top := build(1)
+	// DAG-shaped reply graph: a second, shorter branch that joins the first chain at one of its documents
+	var second interface{}
+	if depth >= 2 && r.Intn(3) == 0 {
+		var shared []string
+		for _, d := range st.W.Remote {
+			if strings.Contains(d.ID, "/n/ch") {
+				shared = append(shared, d.ID)
+			}
+		}
+		if len(shared) > 0 {
+			join := Pick(r, shared)
+			second = J{"type": "Note", "id": fmt.Sprintf("https://%s/n/side", hostR), "inReplyTo": join}
+			if r.Bool() {
+				second = join
+			}
+		}
+	}
+	withSecond := func(v interface{}) interface{} {
+		if second == nil || v == nil {
+			return v
+		}
+		if r.Bool() {
+			return []interface{}{v, second}
+		}
+		return []interface{}{second, v}
+	}
 	switch typ {
 	case "Create":
 		n := J{"type": "Note", "id": st.RNote + "/c17", "attributedTo": st.Dave, "content": "reply"}
 		if top != nil {
-			n["inReplyTo"] = top
+			n["inReplyTo"] = withSecond(top)
 		}
 		f["object"] = n
 	case "Add":
@@ -93,7 +119,7 @@ func genC17(r *Rng, k int, tier string) *RunSpec {
 		}
 	default:
 		if top != nil {
-			f["object"] = top
+			f["object"] = withSecond(top)
 		} else {
 			f["object"] = st.RNote
 		}
